@@ -11,9 +11,11 @@ import (
 	"flag"
 	"fmt"
 	"io"
+	"runtime"
 	"sort"
 	"strings"
 	"sync"
+	"sync/atomic"
 	"testing"
 	"time"
 
@@ -689,6 +691,7 @@ func TestVerifC19DeviceReplay(t *testing.T) {
 		dead := false
 		sawVF, sawMultiType, sawMultiDev, sawShareDev, sawDup, sawTerminated, sawPodFinished, sawSelfEvent, sawLate, sawResv, sawID := false, false, false, false, false, false, false, false, false, false, false
 		maxLive, checks := 0, 0
+		sawInheritedKept, sawInheritedOverridden := false, false
 		sawDeleted, sawEarly, sawOutage, sawOutageOfHeld, sawRestartInOutageOfHeld, sawResizeMulti := false, false, false, false, false, false
 
 		bound := func() []types.UID {
@@ -835,10 +838,23 @@ func TestVerifC19DeviceReplay(t *testing.T) {
 			selfEvent := rapid.Bool().Draw(t, "liveSeesOwnBindEvent")
 			viaAPI := rapid.IntRange(0, 3).Draw(t, "viaAPI") > 0
 			var resv *schedulingv1alpha1.Reservation
+			inherited := false
 			pod := tplPod
 			what := c19PodStr(tplPod)
 			if asResv {
 				resv = c19NewReservation(tplPod, idx)
+				// The template may be a verbatim copy of a bound pod (Reservations created for a migration job copy the source
+				// pod's whole metadata): it then carries the allocation result of THAT pod. What pre-bind writes on the
+				// Reservation itself overrides it in the reserve pod.
+				if rapid.IntRange(0, 2).Draw(t, "templateCopiedFromBoundPod") == 0 {
+					ann := map[string]string{}
+					for k, v := range resv.Spec.Template.Annotations {
+						ann[k] = v
+					}
+					ann[apiext.AnnotationDeviceAllocated] = rapid.SampledFrom([]string{`{}`, `{"gpu":[{"minor":0,"resources":{"koordinator.sh/gpu-core":"100","koordinator.sh/gpu-memory-ratio":"100"}}]}`, `{"rdma":[{"minor":0,"resources":{"koordinator.sh/rdma":"100"}}]}`}).Draw(t, "inheritedAllocationResult")
+					resv.Spec.Template.Annotations = ann
+					inherited = true
+				}
 				pod = reservationutil.NewReservePod(resv)
 				what = "reservation r" + fmt.Sprint(idx) + " of " + what
 			}
@@ -887,6 +903,19 @@ func TestVerifC19DeviceReplay(t *testing.T) {
 				plg.Unreserve(ctx, cs, pod, c19Node)
 				hist = append(hist, fmt.Sprintf("schedule %s -> prebind: %s", what, st.Message()))
 				return
+			}
+			if inherited {
+				if _, own := obj.Resv.Annotations[apiext.AnnotationDeviceAllocated]; !own {
+					// This cycle allocated nothing, so pre-bind wrote no result of its own and the reserve pod would keep the
+					// result copied from the source pod. Whether adopting that is right is not what C19 states; such a
+					// history is not continued (handled like a failed bind).
+					plg.Unreserve(ctx, cs, pod, c19Node)
+					sawInheritedKept = true
+					hist = append(hist, fmt.Sprintf("schedule %s -> nothing allocated, the inherited result would be kept: not continued", what))
+					return
+				}
+				sawInheritedOverridden = true
+				what += " [template carries the source pod's " + apiext.AnnotationDeviceAllocated + "]"
 			}
 			if viaAPI {
 				obj = c19ViaAPI(t, obj)
@@ -1131,6 +1160,8 @@ func TestVerifC19DeviceReplay(t *testing.T) {
 		c.ClassIf(sawPodFinished, "pod-finished(delivered-as-delete)")
 		c.ClassIf(sawDeleted, "object-deleted")
 		c.ClassIf(sawEarly, "replay:add-unbound-then-bind-update")
+		c.ClassIf(sawInheritedOverridden, "reservation-template-carries-source-pod-allocation-result(overridden-by-own)")
+		c.ClassIf(sawInheritedKept, "inherited-result-would-be-kept(history-not-continued)")
 		c.ClassIf(sawResizeMulti, "ResizePod:reservation-holding>=2-devices")
 		c.ClassIf(sawOutage, "device-dropped-from-Device-object")
 		c.ClassIf(sawOutageOfHeld, "dropped-device-is-held")
@@ -1144,5 +1175,124 @@ func TestVerifC19DeviceReplay(t *testing.T) {
 			c.NonTrivial(c19DeviceStr(device), hist)
 		}
 		c.Sample(map[string]any{"inventory": c19DeviceStr(device), "history": hist, "crashPointsChecked": checks, "persistedAtEnd": c19Persisted(persisted)})
+	})
+}
+
+// ---------------------------------------------------------------- first events of a node arriving concurrently
+
+func c19SummaryDiff(a, b *NodeDeviceSummary) string {
+	if d := c19DetailDiff("used", a.DeviceUsedDetail, b.DeviceUsedDetail); d != "" {
+		return d
+	}
+	if d := c19DetailDiff("free", a.DeviceFreeDetail, b.DeviceFreeDetail); d != "" {
+		return d
+	}
+	if d := c19DetailDiff("total", a.DeviceTotalDetail, b.DeviceTotalDetail); d != "" {
+		return d
+	}
+	for _, side := range [][2]*NodeDeviceSummary{{a, b}, {b, a}} {
+		for dt, holders := range side[0].AllocateSet {
+			for k, perMinor := range holders {
+				for m, rl := range perMinor {
+					if d := c19RLDiff(rl, side[1].AllocateSet[dt][k][m]); d != "" {
+						return fmt.Sprintf("holder %s on %s#%d: %s", k, dt, m, d)
+					}
+				}
+			}
+		}
+	}
+	return ""
+}
+
+// TestVerifC19DeviceConcurrentFirstEvents: during a restart the Device, pod and Reservation informers run their handlers
+// on separate goroutines, so the first events of a node can arrive at the same time. The persisted objects of many
+// nodes are replayed through the real handlers from three goroutines per node (released together, all joined before
+// anything is read) and, at quiescence, every node's ledger must equal the one a sequential replay builds. The
+// verdict does not depend on the schedule: the handlers commute on correct code.
+func TestVerifC19DeviceConcurrentFirstEvents(t *testing.T) {
+	c19Silence()
+	rec := vk.New(t, "C19", "deviceConcurrentFirstEvents")
+	rapid.Check(t, func(t *rapid.T) {
+		c := rec.Begin()
+		defer c.End()
+		inv := c19GenDevice(t)
+		const nodes = 48
+		// what the pod and the reservation of every node hold: a slice of the first two devices
+		mk := func(i int, share int64) apiext.DeviceAllocations {
+			info := inv.Spec.Devices[i%len(inv.Spec.Devices)]
+			rl := corev1.ResourceList{}
+			for n := range info.Resources {
+				rl[n] = *resource.NewQuantity(share, resource.DecimalSI)
+			}
+			return apiext.DeviceAllocations{info.Type: {{Minor: *info.Minor, Resources: rl}}}
+		}
+		podShare := int64(rapid.IntRange(1, 50).Draw(t, "podShare"))
+		resvShare := int64(rapid.IntRange(1, 50).Draw(t, "reservationShare"))
+		resvDev := rapid.IntRange(0, 1).Draw(t, "reservationDevice")
+		type perNode struct {
+			dev  *schedulingv1alpha1.Device
+			pod  *corev1.Pod
+			resv *schedulingv1alpha1.Reservation
+		}
+		var objs []perNode
+		for i := 0; i < nodes; i++ {
+			name := fmt.Sprintf("node-%d", i)
+			d := inv.DeepCopy()
+			d.Name = name
+			p := &corev1.Pod{}
+			p.Name, p.Namespace, p.UID = "p-"+name, "default", types.UID("uid-p-"+name)
+			p.Spec.NodeName = name
+			_ = apiext.SetDeviceAllocations(p, mk(0, podShare))
+			r := c19NewReservation(&corev1.Pod{ObjectMeta: metav1.ObjectMeta{Namespace: "default"}, Spec: corev1.PodSpec{Containers: []corev1.Container{{Name: "c"}}}}, i)
+			r.Name, r.UID = "r-"+name, types.UID("uid-r-"+name)
+			r.Status.NodeName, r.Status.Phase = name, schedulingv1alpha1.ReservationAvailable
+			_ = apiext.SetDeviceAllocations(r, mk(resvDev, resvShare))
+			objs = append(objs, perNode{d, p, r})
+		}
+		seq := newNodeDeviceCache()
+		hs := c19NewHandlers(seq)
+		for _, o := range objs {
+			seq.onDeviceAdd(o.dev.DeepCopy())
+			hs.add(c19Obj{Pod: o.pod})
+			hs.add(c19Obj{Resv: o.resv})
+		}
+		conc := newNodeDeviceCache()
+		hc := c19NewHandlers(conc)
+		var wg sync.WaitGroup
+		for _, o := range objs {
+			o := o
+			var ready int32
+			gate := func(f func()) {
+				wg.Add(1)
+				go func() {
+					defer wg.Done()
+					atomic.AddInt32(&ready, 1)
+					for atomic.LoadInt32(&ready) < 3 { // released together
+						runtime.Gosched()
+					}
+					f()
+				}()
+			}
+			gate(func() { conc.onDeviceAdd(o.dev.DeepCopy()) })
+			gate(func() { hc.add(c19Obj{Pod: o.pod}) })
+			gate(func() { hc.add(c19Obj{Resv: o.resv}) })
+		}
+		wg.Wait() // joined: no goroutine outlives the case
+		c.Class(fmt.Sprintf("GOMAXPROCS>=3:%v", runtime.GOMAXPROCS(0) >= 3))
+		c.NonTrivial(c19DeviceStr(inv), podShare, resvShare, resvDev)
+		c.Sample(map[string]any{"inventory": c19DeviceStr(inv), "nodes": nodes, "podShare": podShare, "reservationShare": resvShare})
+		for _, o := range objs {
+			a, okA := seq.getNodeDeviceSummary(o.dev.Name)
+			b, okB := conc.getNodeDeviceSummary(o.dev.Name)
+			if !okA || !okB {
+				c.Violation(t, "device-replay:concurrent-first-events:node-missing", "node %s known to the sequential replay: %v, to the concurrent one: %v", o.dev.Name, okA, okB)
+				return
+			}
+			if d := c19SummaryDiff(a, b); d != "" {
+				c.Violation(t, "device-replay:concurrent-first-events-lose-an-update", "node %s (Device, pod and reservation adds released together): %s (sequential vs concurrent replay); inventory %s, pod holds %s, reservation holds %s",
+					o.dev.Name, d, c19DeviceStr(inv), c19AllocStr(mk(0, podShare)), c19AllocStr(mk(resvDev, resvShare)))
+				return
+			}
+		}
 	})
 }
